@@ -312,7 +312,7 @@ def mutate(rng, cls, vs):
             return None
         v = rng.choice(c)
         ks = [k for k, x in enumerate(v["path"]) if not isinstance(x, tuple)]
-        v["path"][rng.choice(ks)] = rng.choice([fresh_name(vs), 1000, 2])   # 2 = RawTag: not a variant before the rewrite
+        v["path"][rng.choice(ks)] = rng.choice([fresh_name(vs), 5000, 2])   # 2 = RawTag: not a variant before the rewrite
         return to_decl(rng, vs)
     if cls == "non-master-parent":
         leaves = [v for v in vs if v["ty"] != "M"]
